@@ -10,7 +10,7 @@ META = dict(
     level_note='task-level schedules; plus, in the *-race jobs, one pre-emption by another thread (a response, a timer, a queued task or a connection failure) at any lock acquire/release reached while the running thread holds no lock; single logical execution (no speculative interleaving except in the idempotence job); transport/timers/executor faked',
     technique='symbolic execution (sx proxies) of the real ResponseFuture retry path over solver-enumerated error/decision sequences + z3 validity per path',
     bounds=dict(quick='3 hosts, <= 2 policy consultations, error kinds {read timeout, write timeout, unavailable, overloaded, connection error(defunct)}, decisions x levels {None, ONE}, histories of <= 5 events',
-                thorough='3 hosts, <= 3 policy consultations, + bootstrapping / server error, histories of <= 7 events'),
+                thorough='3 hosts, <= 3 policy consultations, + bootstrapping / server error, histories of <= 7 events; retries-race2 jobs: 3 events + 2 pre-emptions'),
     assumptions=['race jobs: a timer (client-side timeout, speculative execution) may fire on a thread other than the event loop\'s, so it can overlap the handling of a response - Connection.create_timer does not promise otherwise and the driver itself guards _on_timeout with the connection lock; with the bundled reactors timers run on the event-loop thread, for which these schedules are an over-approximation; two responses are never handled at the same time', 'each stream is answered at most once'],
     stubs=['transport/timers/executor: harness kit', 'codec: identity', 'retry policy: decision oracle'],
     outside=['speculative executions racing with retries (C14 covers outcome uniqueness)'],
@@ -22,11 +22,11 @@ def encoded_functions():
     return [R._set_result, R._handle_retry_decision, R._retry, R._retry_task, R._query, R.send_request, R._start_timer]
 
 
-def h_retries(V, steps=5, calls=2, responses=('rows', 'read_timeout', 'write_timeout', 'unavailable', 'overloaded'), race=False):
+def h_retries(V, steps=5, calls=2, responses=('rows', 'read_timeout', 'write_timeout', 'unavailable', 'overloaded'), race=False, budget=1):
     run = Run(V, n_hosts=3, responses=responses, decisions=(RETRY, RETHROW, IGNORE, NEXT), levels=(None, CL.ONE),
               spec_attempts=0, idempotent=False, allow_defunct=True, max_policy_calls=calls)
     rf = run.rf
-    pre = rfhist.arm_race(V, run) if race else None
+    pre = rfhist.arm_race(V, run, budget) if race else None
     rf.send_request()
     for i in range(steps):
         ncalls = len(run.policy.calls)
@@ -190,5 +190,9 @@ def jobs(tier):
     for first in range(3):
         js.append(Job('retries-race-f%d' % first, 'h_retries', dict(steps=4 if th else 3, calls=2, responses=('rows', 'read_timeout', 'unavailable'), race=True),
                       dict(o, pin={'ev0': first})))
+    if th:
+        for first in range(3):
+            js.append(Job('retries-race2-f%d' % first, 'h_retries', dict(steps=3, calls=2, responses=('rows', 'read_timeout', 'unavailable'), race=True, budget=2),
+                          dict(o, pin={'ev0': first})))
     js.append(Job('retries-defunct-first', 'h_retries', dict(steps=6 if th else 4, calls=3 if th else 2, responses=resp), dict(o, pin={'ev0': 2})))
     return js
